@@ -166,6 +166,10 @@ class World(object):
             return self.direct_terminate
         if name == 'loop:local':
             return lambda: self.loop([b"\x00\x00"], local=True)
+        if name == 'loop:local+ioerror':
+            # local terminate request, and the driver fails at the DISC
+            # exchange of terminate() itself (reader unplugged at that moment)
+            return lambda: self.loop(['ioerror', 'ioerror', 'ioerror'], local=True)
         if name == 'loop:disrupt':
             return lambda: self.loop([None])
         if name.startswith('loop:') and name[5:] in MAC_ERRORS:
@@ -1009,7 +1013,10 @@ STATES = ['raw:unbound', 'raw:bound', 'raw:data', 'raw:closed',
           'raw:queued', 'ldl:queued', 'sd:fresh', 'sd:pending']
 ENDS = ['terminate', 'loop:local', 'loop:disrupt', 'loop:remote',
         'loop:ioerror', 'loop:timeout', 'loop:transmission', 'loop:protocol',
-        'loop:broken', 'loop:commerr']
+        'loop:broken', 'loop:commerr',
+        'loop:local+ioerror']
+# (the ends of the link-preempted family and of the random scripts: as before)
+ENDS_LP = [e for e in ENDS if e != 'loop:local+ioerror']
 POISONS = ['resolve', 'connect', 'raw']
 # events of the conversation that precede the end of the link (second
 # preemption); all are delivered by an iteration of the real run loop
@@ -1040,7 +1047,7 @@ LP_EVENTS = ['conn:connect', 'conn:disc', 'conn:dm', 'conn:i', 'loop:symm']
 
 
 def default_role(e):
-    return 'ini' if e in ('terminate', 'loop:local') else 'tgt'
+    return 'ini' if e in ('terminate', 'loop:local', 'loop:local+ioerror') else 'tgt'
 
 
 def partitions(tier):
@@ -1052,6 +1059,7 @@ def partitions(tier):
     for st in STATES:
         if quick:
             scripts = [[default_role(e), [e]] for e in ENDS[:6]]
+            scripts += [['ini', ['loop:local+ioerror']]]
             scripts += [['tgt', [ev, 'loop:disrupt']]
                         for ev in CONN_EVENTS.get(st, [])]
             add("call_vs_link", st, state=st, scripts=scripts)
@@ -1103,7 +1111,7 @@ def partitions(tier):
         else:
             # the initiator's run loop begins with collect(): many more
             # preemption points than the terminator itself has
-            for e in ENDS:
+            for e in ENDS_LP:
                 roles = ('ini', 'tgt') if e in LP_ENDS else ('tgt',)
                 add("link_preempted", "%s:%s" % (e, grp), calls=calls,
                     scripts=[[role, [e]] for role in roles])
@@ -1161,7 +1169,7 @@ def partitions(tier):
             scripts = []
             for k in range(6):
                 n = rng.choice([2, 2, 3])
-                sc = [rng.choice(evs) for j in range(n)] + [rng.choice(ENDS)]
+                sc = [rng.choice(evs) for j in range(n)] + [rng.choice(ENDS_LP)]
                 if 'conn:ui' in sc[:-1] and st.startswith('dlc:est'):
                     continue        # the link thread never gets past it
                 ent = [rng.choice(['ini', 'tgt']), sc]
@@ -1224,7 +1232,7 @@ MUST_REACH = {
     "quick": _MUST + _MUST_LP,
     "thorough": _MUST + ["pre:%s:line" % c for c in LOCKING] +
     ["pre:dlc.getsockopt:line", "pre:dlc.getsockname:line"] + _MUST_LP +
-    ["lp:at:%s:%s" % (e, p) for e in ENDS for p in LP_SITES] +
+    ["lp:at:%s:%s" % (e, p) for e in ENDS_LP for p in LP_SITES] +
     ["lp:at:terminate:line:%s" % f for f in LP_LINES] +
     ["lp:dying-driver",
      "lp:at:conn:connect:acquire:LogicalLinkController.dispatch",
@@ -1234,7 +1242,7 @@ MUST_REACH = {
      "lp:at:loop:symm:acquire:LogicalLinkController.collect"],
 }
 BOUNDS = {
-    "quick": "schedule enumeration, not data: 2 logical threads (one application call, the link thread). Application call: each of send (blocking and MSG_DONTWAIT), sendto, recv, recvfrom, accept, connect (by address and by name), listen, bind, getsockopt, setsockopt, getsockname/getpeername, resolve (bytes and str), poll('recv'/'send'/'acks') without and with time-out, close - on a socket of each suitable kind in each of 25 states reached by <= 5 real set-up operations (raw/ldl: unbound, bound, datagram queued for recv, PDU queued for sending, connected, closed; dlc: unbound, bound, listening with empty / filled backlog, a thread sleeping in connect(), established (passive open through the real listen/dispatch/accept), established with data queued, with an unacknowledged / a not yet collected I PDU (send window full when RW(R)=1), CLOSE_WAIT, a thread sleeping in close(), closed; service discovery fresh / request pending). Link thread: one step that ends the link out of {llc.terminate() called directly, run loop ended by the terminate callback (local choice), MAC exchange returns None (link disruption), DISC received (remote choice), IOError in the MAC (input/output error + SystemExit), nfc.clf.TimeoutError in the MAC} each run through the real run_as_initiator/run_as_target over a scripted MAC, optionally preceded by one event of the conversation delivered by one real run-loop iteration (DISC, DM, FRMR, I with wrong N(S), valid I, UI, CONNECT, CC for the socket under test, SYMM) = 2 preemptions. Preemption points: before the call, every lock acquisition while the application thread holds no lock, every acquisition of a further lock while it holds one (a link step that then needs the held lock while owning the wanted one = lock-order deadlock), inside every Condition.wait(), after every wake-up; all enumerated. After the link ended 16-25 further calls on the same socket. Service bodies SnepServer._listen/_serve and HandoverServer.listen/serve with 0-2 queued connection requests / request fragments, link ended at every preemption point, threads they start run afterwards. Dying driver: for 4 socket states (thorough: all) and the four server bodies each link-ending step with a MAC whose deactivate() raises IOError(ENODEV) inside terminate(). Connections returned by accept() while the link ended are exercised by 8 further calls. The link loop dying from inside: for every state one run-loop iteration whose outbound PDU can not be encoded (a thread sleeping in resolve() of a 261-octet name, in connect() to a 261-octet service name, or a raw access point that queued a PDU with DSAP 70; link MIU 2175) - exchange() must absorb the EncodeError and the loop end the link; an exception other than SystemExit/KeyboardInterrupt leaving run_as_initiator/run_as_target is the violation run-loop-raises. Several waiters: 2 application threads (real call stacks, one running at a time) asleep in the same kind of call - resolve() of different names, accept() on one listening socket, recv()/recvfrom() on one raw / logical-data-link / connection socket, blocking send() on one connection / raw socket, poll('recv'), poll('acks') - in each rotation of the order they went to sleep, then each link-ending step, the woken threads run in every order; none may stay asleep. Symbolic: where the link thread runs (flags), RW announced by the peer 0..15 (send window open/full), link MIU 128..2175 for connection-less sockets, payload octets, SNEP header version/length octets. Link thread preempted (family link_preempted): one link controller with service access points 0, 1, 16 (connection socket bound by name, listening, one accepted ESTABLISHED connection and one pending CONNECT), 40 (logical data link socket), 41 (raw access point) and three unbound sockets (connection, logical data link, raw). The link thread runs one terminator out of {llc.terminate() called directly, run loop of the initiator ended by the terminate callback (collect() runs first), DISC for the link received by the target, link disruption at the target} and is preempted at ONE of its preemption points - every acquisition of a lock by the link thread (llc.lock, each socket's lock; also re-acquisitions of a lock it owns, several in a row at one call site counted once), all enumerated: before terminate() takes llc.lock, before each socket's close() in ServiceAccessPoint.shutdown() (the socket is unbound, not yet closed; llc.lock held; part of the table already emptied), inside the sockets' close(), in ServiceDiscovery.shutdown(), and in the initiator's collect() - by ONE application call out of 38: socket(), resolve(); on the unbound connection socket bind() auto / by address / by name, listen(), connect() by address and by name, close(), getsockopt(); on the unbound logical data link socket sendto(), bind(), connect(); on the unbound raw socket send(MSG_DONTWAIT), bind(address); on the listening socket accept(), close(), poll('recv'), getsockopt(); on the established connection send() blocking and MSG_DONTWAIT, recv(), poll('recv'/'send'/'acks'), poll('recv', 0.5), close(), getsockopt(); on the logical data link socket sendto(), recvfrom(), poll('recv'), close(), connect(); on the raw socket send(), recv(), poll('recv'), close(), bind(). The call runs until it ends or blocks; one that needs a lock the link thread owns waits and goes on when the link thread has released it (there, or after the link step - both), one that sleeps in wait() goes on after the link step if it was notified, a wait with time-out times out after the link step. Then: the call has ended with a return value or nfc.llcp.Error, and the 16-25 later calls are made on each of the 7 sockets and on a socket the call created or accepted",
+    "quick": "schedule enumeration, not data: 2 logical threads (one application call, the link thread). Application call: each of send (blocking and MSG_DONTWAIT), sendto, recv, recvfrom, accept, connect (by address and by name), listen, bind, getsockopt, setsockopt, getsockname/getpeername, resolve (bytes and str), poll('recv'/'send'/'acks') without and with time-out, close - on a socket of each suitable kind in each of 25 states reached by <= 5 real set-up operations (raw/ldl: unbound, bound, datagram queued for recv, PDU queued for sending, connected, closed; dlc: unbound, bound, listening with empty / filled backlog, a thread sleeping in connect(), established (passive open through the real listen/dispatch/accept), established with data queued, with an unacknowledged / a not yet collected I PDU (send window full when RW(R)=1), CLOSE_WAIT, a thread sleeping in close(), closed; service discovery fresh / request pending). Link thread: one step that ends the link out of {llc.terminate() called directly, run loop ended by the terminate callback (local choice), MAC exchange returns None (link disruption), DISC received (remote choice), IOError in the MAC (input/output error + SystemExit), nfc.clf.TimeoutError in the MAC, the terminate callback with IOError at the DISC exchange of terminate() itself} each run through the real run_as_initiator/run_as_target over a scripted MAC, optionally preceded by one event of the conversation delivered by one real run-loop iteration (DISC, DM, FRMR, I with wrong N(S), valid I, UI, CONNECT, CC for the socket under test, SYMM) = 2 preemptions. Preemption points: before the call, every lock acquisition while the application thread holds no lock, every acquisition of a further lock while it holds one (a link step that then needs the held lock while owning the wanted one = lock-order deadlock), inside every Condition.wait(), after every wake-up; all enumerated. After the link ended 16-25 further calls on the same socket. Service bodies SnepServer._listen/_serve and HandoverServer.listen/serve with 0-2 queued connection requests / request fragments, link ended at every preemption point, threads they start run afterwards. Dying driver: for 4 socket states (thorough: all) and the four server bodies each link-ending step with a MAC whose deactivate() raises IOError(ENODEV) inside terminate(). Connections returned by accept() while the link ended are exercised by 8 further calls. The link loop dying from inside: for every state one run-loop iteration whose outbound PDU can not be encoded (a thread sleeping in resolve() of a 261-octet name, in connect() to a 261-octet service name, or a raw access point that queued a PDU with DSAP 70; link MIU 2175) - exchange() must absorb the EncodeError and the loop end the link; an exception other than SystemExit/KeyboardInterrupt leaving run_as_initiator/run_as_target is the violation run-loop-raises. Several waiters: 2 application threads (real call stacks, one running at a time) asleep in the same kind of call - resolve() of different names, accept() on one listening socket, recv()/recvfrom() on one raw / logical-data-link / connection socket, blocking send() on one connection / raw socket, poll('recv'), poll('acks') - in each rotation of the order they went to sleep, then each link-ending step, the woken threads run in every order; none may stay asleep. Symbolic: where the link thread runs (flags), RW announced by the peer 0..15 (send window open/full), link MIU 128..2175 for connection-less sockets, payload octets, SNEP header version/length octets. Link thread preempted (family link_preempted): one link controller with service access points 0, 1, 16 (connection socket bound by name, listening, one accepted ESTABLISHED connection and one pending CONNECT), 40 (logical data link socket), 41 (raw access point) and three unbound sockets (connection, logical data link, raw). The link thread runs one terminator out of {llc.terminate() called directly, run loop of the initiator ended by the terminate callback (collect() runs first), DISC for the link received by the target, link disruption at the target} and is preempted at ONE of its preemption points - every acquisition of a lock by the link thread (llc.lock, each socket's lock; also re-acquisitions of a lock it owns, several in a row at one call site counted once), all enumerated: before terminate() takes llc.lock, before each socket's close() in ServiceAccessPoint.shutdown() (the socket is unbound, not yet closed; llc.lock held; part of the table already emptied), inside the sockets' close(), in ServiceDiscovery.shutdown(), and in the initiator's collect() - by ONE application call out of 38: socket(), resolve(); on the unbound connection socket bind() auto / by address / by name, listen(), connect() by address and by name, close(), getsockopt(); on the unbound logical data link socket sendto(), bind(), connect(); on the unbound raw socket send(MSG_DONTWAIT), bind(address); on the listening socket accept(), close(), poll('recv'), getsockopt(); on the established connection send() blocking and MSG_DONTWAIT, recv(), poll('recv'/'send'/'acks'), poll('recv', 0.5), close(), getsockopt(); on the logical data link socket sendto(), recvfrom(), poll('recv'), close(), connect(); on the raw socket send(), recv(), poll('recv'), close(), bind(). The call runs until it ends or blocks; one that needs a lock the link thread owns waits and goes on when the link thread has released it (there, or after the link step - both), one that sleeps in wait() goes on after the link step if it was notified, a wait with time-out times out after the link step. Then: the call has ended with a return value or nfc.llcp.Error, and the 16-25 later calls are made on each of the 7 sockets and on a socket the call created or accepted",
     "thorough": "as quick with every nfc.clf.CommunicationError subclass (TimeoutError, TransmissionError, ProtocolError, BrokenLinkError, CommunicationError itself) raised by the MAC, all three un-encodable PDUs in every state and both roles, 2 and 3 sleeping threads per kind of call (all terminators, both roles, also after a conversation event), both roles (initiator/target run loop) x all 6 link-ending steps (adds NFC-DEP time-out in exchange) alone and after every listed conversation event (all 2-step scripts), VERIF_SEED-chosen scripts of 3-4 link steps (up to 4 preemptions) for 14 states, and for every state and call a second enumeration at source-line granularity: a preemption point before every line of nfc.llcp.llc/tco/socket and the two server modules that the application thread executes while it holds no lock (terminators: llc.terminate(), remote DISC); family link_preempted with all 10 link-ending steps at the target and the 4 of quick also at the initiator, every re-acquisition a preemption point of its own, the dying driver (5 steps), a conversation event (CONNECT, DISC, DM, I for the established connection, SYMM) delivered by a preemptible run-loop iteration of its own before link disruption (dispatch()/enqueue() and collect() preempted), the application call resumed at any later preemption point of the link thread once it was notified / the lock it waits for is free (llc.terminate(), link disruption, local choice at the initiator), and - llc.terminate() - a preemption point before every source line of LogicalLinkController.terminate, ServiceAccessPoint.shutdown and ServiceDiscovery.shutdown, i.e. between the iterations of the loop over the service access points and of the loop over the sockets of one of them (a line is a point once per state of table/sockets in which it is met)",
 }
 OUTSIDE = ["more than one *running* application thread (two calls racing on one socket, a second thread calling close() on a socket another thread waits on); several threads are covered only asleep in the same kind of call when the link ends, descheduled nowhere but in Condition.wait()",
